@@ -92,7 +92,9 @@ def _transform_back(var_transformed: Var) -> Calc:
     inputs = var_transformed.dist_node.inputs
     kwinputs = var_transformed.dist_node.kwinputs
 
-    return Calc(fn, var_transformed.value_node, *inputs, **kwinputs)  # type: ignore
+    # the original variable reads the new one through its proxy node, which follows
+    # the new variable if its value node is replaced (e.g. by a further transformation)
+    return Calc(fn, var_transformed, *inputs, **kwinputs)  # type: ignore
 
 
 class GraphBuilder:
